@@ -61,7 +61,8 @@ def build_request(ctx, framing, tier, expect=False, follow=True, concrete_body=F
         sizes = [[3], [1, 2], [2, 1, 1], [10]][ctx.choose(4 if tier != 'quick' else 3, 'chunks')]
         style = ctx.choose(4, 'style')
         wire_body, body = chunked_body(ctx, sizes, style)
-        te = case_variant(ctx, b'Transfer-Encoding') + K(b': chunked\r\n')
+        # coding names are case-insensitive: the letter case of the value is symbolic as well
+        te = case_variant(ctx, b'Transfer-Encoding') + K(b': ') + case_variant(ctx, b'chunked', 'tecase') + CRLF
         if framing == 'chunked+cl':
             cl = K(b'Content-Length: 2\r\n')
             head += (cl + te) if ctx.choose(2, 'order') else (te + cl)
